@@ -42,7 +42,7 @@ func VerifHarness_Step_BasketPut() {
 
 func VerifHarness_Step_BasketTake() {
 	// stated bound: one Take drains at most iter+1 basket balances
-	zz.AssumeLoopBound(zz.Bound("iter", 1) + 1)
+	zz.AssumeLoopBound("keeper.Keeper).Take", zz.Bound("iter", 1)+1)
 	req := &types.MsgTake{}
 	runStep(req, func(k Keeper, ctx context.Context) error { _, err := k.Take(ctx, req); return err }, nil)
 }
